@@ -52,23 +52,23 @@ Definition check (c : case) : N :=
   match c with
   | CMsg m inner d =>
     bit (bytes_eqb (enc_msg m) inner) 1
-    + bit (cres_eqb msg_eqb (match dec_msg inner with Ok (x, _) => Ok x | Err e => Err e | Panic => Panic end) d) 1
-    + bit (cres_eqb msg_eqb d (Ok m)) 2                 (* oracle: survives encode/decode unchanged *)
+    |+| bit (cres_eqb msg_eqb (match dec_msg inner with Ok (x, _) => Ok x | Err e => Err e | Panic => Panic end) d) 1
+    |+| bit (cres_eqb msg_eqb d (Ok m)) 2                 (* oracle: survives encode/decode unchanged *)
   | CFrame f inner d =>
     bit (bytes_eqb (enc_frame f) inner) 1
-    + bit (cres_eqb frame_eqb (dec_frame inner) d) 1
-    + bit (cres_eqb frame_eqb d (Ok f)) 2
+    |+| bit (cres_eqb frame_eqb (dec_frame inner) d) 1
+    |+| bit (cres_eqb frame_eqb d (Ok f)) 2
   | CId ssid now seq unique iid issid ic it =>
     bit (ures_eqb bytes_eqb (new_id ssid now seq unique) iid) 1
-    + bit (ures_eqb (list_eqb N.eqb) (id_ssid iid) issid) 1
-    + bit (ures_eqb N.eqb (id_contract iid) ic) 1
-    + bit (ures_eqb Z.eqb (id_time iid) it) 1
+    |+| bit (ures_eqb (list_eqb N.eqb) (id_ssid iid) issid) 1
+    |+| bit (ures_eqb N.eqb (id_contract iid) ic) 1
+    |+| bit (ures_eqb Z.eqb (id_time iid) it) 1
     (* oracle: the id gives back ssid, contract and creation second *)
-    + bit (list_eqb N.eqb issid ssid) 2 + bit (ic =? hd 0 ssid) 2 + bit (Z.eqb it now) 2
+    |+| bit (list_eqb N.eqb issid ssid) 2 |+| bit (ic =? hd 0 ssid) 2 |+| bit (Z.eqb it now) 2
   | CIdTime before t after it =>
     bit (bytes_eqb (id_set_time before t) after) 1
-    + bit (ures_eqb Z.eqb (id_time after) it) 1
-    + (if ((id_offset <=? t) && (t <? id_offset + 4294967296))%Z then bit (Z.eqb it t) 2 else 0)
+    |+| bit (ures_eqb Z.eqb (id_time after) it) 1
+    |+| (if ((id_offset <=? t) && (t <? id_offset + 4294967296))%Z then bit (Z.eqb it t) 2 else 0)
   | CIdOrder a b =>
     (* oracle: same prefix, later (time, seq) sorts strictly before; b was created after a *)
     match id_time a, id_time b with
@@ -78,12 +78,12 @@ Definition check (c : case) : N :=
   | CSplit f max h t =>
     let (mh, mt) := split f max in
     bit (frame_eqb mh h && frame_eqb mt t) 1
-    + bit (frame_eqb (h ++ t) f) 2
-    + bit (match h with [] => true | _ => fold_left (fun a m => a + msize m) h 0 <? max end) 2
-    + bit (match f, h with m :: _, [] => max <=? msize m | _, _ => true end) 2
+    |+| bit (frame_eqb (h ++ t) f) 2
+    |+| bit (match h with [] => true | _ => fold_left (fun a m => a + msize m) h 0 <? max end) 2
+    |+| bit (match f, h with m :: _, [] => max <=? msize m | _, _ => true end) 2
   | CQueue ops sent =>
     let s := fold_left q_apply ops pq0 in
     bit (list_eqb frame_eqb (q_sent s) sent) 1
     (* oracle: everything handed to the active peer reaches the transport once, in order *)
-    + bit (frame_eqb (concat sent) (sent_of ops)) 2
+    |+| bit (frame_eqb (concat sent) (sent_of ops)) 2
   end.
